@@ -104,6 +104,7 @@ class Runner:
             algo = eqx.tree_at(lambda a: a.gae_lambda, algo, jnp.array(1.0))
         self.algo0 = algo
         self.cb0 = SpyCallback(alpha=jnp.array(0.9))
+        self.cb_log = SpyCallback(alpha=jnp.array(0.9), log_iter=True)  # used for C19 only (adds host callbacks)
         self._reset = eqx.filter_jit(lambda algo, env, policy, key, cb: algo.reset(env, policy, key=key, callback=cb))
         self._iter = eqx.filter_jit(lambda algo, state, key, cb: algo.iteration(state, key=key, callback=cb))
         # the same vmapped call `iteration` performs, and the single-environment call (C12)
@@ -176,7 +177,7 @@ class Runner:
         env = set_time_limit(env, int(kn["time_limit"]))
         policy = with_policy_tables(self.policy0, plan["policy"])
         algo = eqx.tree_at(lambda a: (a.gamma, a.gae_lambda), self.algo0, (jnp.array(kn["gamma"], dtype=float), jnp.array(kn["lam"], dtype=float)))
-        cb = eqx.tree_at(lambda c: c.inner.alpha, self.cb0, jnp.array(kn["alpha"], dtype=float))
+        cb = eqx.tree_at(lambda c: c.inner.alpha, self.cb_log if getattr(self, "_want_log", False) else self.cb0, jnp.array(kn["alpha"], dtype=float))
         return env, policy, algo, cb
 
     def _node_view(self, tree, i):
@@ -243,7 +244,10 @@ class Runner:
         kn = plan["knobs"]
         res = RunResult(Trace())
         tr = res.trace
+        self._want_log = props == {"C19"}
         env, policy, algo, cb = self._materialise(plan)
+        if self._want_log:
+            cb.recorder.clear()
         self._cur_obs = np.asarray(plan["world"]["obs"])
         mdp = RefMDP(self.kind, self.comps, plan["world"], time_limit=int(kn["time_limit"]) if self.has_tl else None)
         pol = RefTablePolicy(self.kind, self.comps, plan["policy"])
@@ -284,6 +288,9 @@ class Runner:
                 check_node_rollout(res, props, mdp, pol, nodes[i], i, recs[i], gamma, lam, alpha, trace=tr)
             if int(state.iteration_count) != it_before + 1:
                 res.fail("C10", "iteration_counter", "not_incremented", got=int(state.iteration_count), expected=it_before + 1)
+            if self._want_log:
+                jax.effects_barrier()
+                self._check_iteration_record(res, cb.recorder, recs, oi)
             # ---- injected fault: perturb one node and demand bit-identical other nodes
             f = faults.get(oi)
             if f is not None and n > 1 and "C12" in props:
@@ -340,6 +347,32 @@ class Runner:
             v = variant(fn)
             if v is not None:
                 yield v
+
+    def _check_iteration_record(self, res, rec, recs, oi):
+        """The record the back-end received for this iteration: cumulative steps = sum over nodes,
+        episode statistics = mean over nodes of the per-node statistics (verified separately)."""
+        scal = [c for c in rec.calls if c["call"] == "log_scalars"]
+        n_iter = sum(1 for _ in scal)
+        if n_iter != oi:
+            res.fail("C19", "records_in_order", "one_record_per_iteration_expected", got=n_iter, expected=oi)
+            return
+        last = scal[-1]
+        steps = [c["step"] for c in scal]
+        if steps != sorted(steps):
+            res.fail("C19", "records_in_order", "records_out_of_order", steps=steps)
+        want_step = int(sum(int(r["log_step"]) for r in recs))
+        if int(last["step"]) != want_step:
+            per_node = [int(r["log_step"]) for r in recs]
+            res.fail("C19", "cumulative_steps", "step_is_not_the_sum_over_environments", got=int(last["step"]), expected=want_step, per_node=per_node)
+        else:
+            res.ok("C19", "cumulative_steps")
+        want_ret = float(np.mean([float(r["log_avg_ret"]) for r in recs]))
+        want_len = float(np.mean([float(r["log_avg_len"]) for r in recs]))
+        got_ret, got_len = last["scalars"].get("episode/return"), last["scalars"].get("episode/length")
+        if got_ret is None or got_len is None or abs(got_ret - want_ret) > 1e-5 * max(1.0, abs(want_ret)) or abs(got_len - want_len) > 1e-5 * max(1.0, abs(want_len)):
+            res.fail("C19", "per_node", "record_is_not_the_mean_over_environments", got=[got_ret, got_len], expected=[want_ret, want_len])
+        else:
+            res.ok("C19", "records_in_order")
 
     def _slice_check(self, res, algo, env, policy, step_state, cb, key_int):
         """N parallel collections == N independent single collections from the same keys/states."""
